@@ -49,6 +49,9 @@ def generate_ops(rng, cfg, spec, tier) -> list[dict]:
                                  rotator=(target == "r"))
         return qs[0]
 
+    if cfg.get("focus") == "rotator" and cfg["rot_params"]:
+        ops.append({"op": "rot_fit"})
+        has_rot = True
     while len(ops) < n:
         r = rng.random()
         if r < 0.22:
